@@ -26,7 +26,8 @@ from dvc.state import Unsupported
 from specs.bounds import AV, series_parts, idist_term, min2
 
 # context: a1 o1 r  a2 o2 c  w  pen  mstep  psi_1b psi_2b  metric
-CTX_SORTS = [AV, IntS, IntS, AV, IntS, IntS, IntS, Val, Val, IntS, IntS, IntS]
+CTX_SORTS = [AV, IntS, IntS, AV, IntS, IntS, IntS, Val, Val, IntS, IntS, IntS, IntS]
+NCTX = len(CTX_SORTS)   # ... metric, ndim (0 = univariate)
 
 
 def band(i, j, r, c, w):
@@ -36,12 +37,15 @@ def band(i, j, r, c, w):
 
 
 def cost_term(ctx, i, j):
-    a1, o1, r, a2, o2, c, w, pen, mstep, p1b, p2b, metric = ctx
-    return idist_term(metric, z3.Select(a1, o1 + i), z3.Select(a2, o2 + j))
+    a1, o1, r, a2, o2, c, w, pen, mstep, p1b, p2b, metric, nd = ctx
+    from specs.bounds import InnerNdf
+    uni = idist_term(metric, z3.Select(a1, o1 + i), z3.Select(a2, o2 + j))
+    inner = InnerNdf(a1, o1 + i * nd, a2, o2 + j * nd, nd)
+    return z3.If(nd == 0, uni, z3.If(metric == 0, inner, vsqrt(inner)))
 
 
 def allowed(ctx, i, j):
-    a1, o1, r, a2, o2, c, w, pen, mstep, p1b, p2b, metric = ctx
+    a1, o1, r, a2, o2, c, w, pen, mstep, p1b, p2b, metric, nd = ctx
     return z3.And(band(i, j, r, c, w), z3.Not(vlt(mstep, cost_term(ctx, i, j))))
 
 
@@ -50,9 +54,9 @@ def min3(a, b, c):
 
 
 def _w_body(rec, *args):
-    ctx = args[:12]
-    i, j = args[12], args[13]
-    a1, o1, r, a2, o2, c, w, pen, mstep, p1b, p2b, metric = ctx
+    ctx = args[:NCTX]
+    i, j = args[NCTX], args[NCTX + 1]
+    a1, o1, r, a2, o2, c, w, pen, mstep, p1b, p2b, metric, nd = ctx
     inner = z3.If(allowed(ctx, i - 1, j - 1),
                   vadd(cost_term(ctx, i - 1, j - 1),
                        min3(rec(*ctx, i - 1, j - 1), vadd(rec(*ctx, i - 1, j), pen), vadd(rec(*ctx, i, j - 1), pen))),
@@ -80,7 +84,7 @@ def opt_val(v):
     return z3.BoolVal(False), vlit(v)
 
 
-def make_ctx(ex, st, s1, s2, window, penalty, max_step, psi_1b, psi_2b, metric):
+def make_ctx(ex, st, s1, s2, window, penalty, max_step, psi_1b, psi_2b, metric, ndim=0):
     a1, o1 = series_parts(ex, st, s1)
     a2, o2 = series_parts(ex, st, s2)
     r = zint(ex.bi_len([s1], {}, None, st))
@@ -96,7 +100,7 @@ def make_ctx(ex, st, s1, s2, window, penalty, max_step, psi_1b, psi_2b, metric):
     pen = z3.If(z3.Or(pn, pv == vzero), vzero, adj(m, pv))
     sn, sv = opt_val(max_step)
     mstep = z3.If(z3.Or(sn, sv == vzero), vinf, adj(m, sv))
-    return (a1, o1, r, a2, o2, c, w, pen, mstep, zint(psi_1b), zint(psi_2b), m)
+    return (a1, o1, r, a2, o2, c, w, pen, mstep, zint(psi_1b), zint(psi_2b), m, zint(ndim))
 
 
 class CtxValue(tuple):
@@ -108,7 +112,7 @@ class CtxValue(tuple):
 
 def _ctx(ex, st, s1, s2, window, penalty, max_step, psi_1b, psi_2b, metric):
     raw = make_ctx(ex, st, s1, s2, window, penalty, max_step, psi_1b, psi_2b, metric)
-    names = ['a1', 'o1', 'r', 'a2', 'o2', 'c', 'w', 'pen', 'mstep', 'p1b', 'p2b', 'metric']
+    names = ['a1', 'o1', 'r', 'a2', 'o2', 'c', 'w', 'pen', 'mstep', 'p1b', 'p2b', 'metric', 'nd']
     out, defs = [], []
     for n, t in zip(names, raw):
         if z3.is_const(t) or z3.is_int_value(t):
@@ -151,8 +155,8 @@ from specs.bounds import JE, JS, WinMinf, winmin_axioms
 
 
 def _psicol_body(rec, *args):
-    ctx, p1e, k = args[:12], args[12], args[13]
-    a1, o1, r, a2, o2, c, w, pen, mstep, p1b, p2b, metric = ctx
+    ctx, p1e, k = args[:NCTX], args[NCTX], args[NCTX + 1]
+    a1, o1, r, a2, o2, c, w, pen, mstep, p1b, p2b, metric, nd = ctx
     i = k - 1
     prev = rec(*ctx, p1e, k - 1)
     cond = z3.And(p1e != 0, JE(i, r, c, w) == c, r - 1 - i <= p1e)
@@ -163,7 +167,7 @@ PsiColf, psicol_axioms = fuel_function('PsiCol', CTX_SORTS + [IntS, IntS], Val, 
 
 
 def _wrowmin_body(rec, *args):
-    ctx, row, lo, hi = args[:12], args[12], args[13], args[14]
+    ctx, row, lo, hi = args[:NCTX], args[NCTX], args[NCTX + 1], args[NCTX + 2]
     return z3.If(hi <= lo + 1, Wf(*ctx, row, lo), min2(rec(*ctx, row, lo, hi - 1), Wf(*ctx, row, hi - 1)))
 
 
@@ -171,7 +175,7 @@ WRowMinf, wrowmin_axioms = fuel_function('WRowMin', CTX_SORTS + [IntS, IntS, Int
 
 
 def dend_term(ctx, p1e, p2e):
-    a1, o1, r, a2, o2, c, w, pen, mstep, p1b, p2b, metric = ctx
+    a1, o1, r, a2, o2, c, w, pen, mstep, p1b, p2b, metric, nd = ctx
     lo = c - p2e          # the property statement: any end column within psi_2e of the corner
     return z3.If(z3.And(p1e == 0, p2e == 0), Wf(*ctx, r, c),
                  z3.If(p2e != 0, min2(WRowMinf(*ctx, r, lo, c + 1), PsiColf(*ctx, p1e, r)),
@@ -258,3 +262,69 @@ def _buffold_instance_obligation():
 
 LEMMAS['BufFold2'] = Lemma('BufFold2', _buffold2_axiom, _buffold2_obligations,
                            doc='BufFold stated over the end positions of the buffer window (arithmetic-free trigger)')
+
+
+# ---------------------------------------------------------------------------------------------
+# C engine: context from the DTWSettings struct (0 encodes "option off"); `metric` is the inner
+# distance of the *kernel variant* (0: dtw_distance / _ndim, 1: *_euclidean).
+def _ctx_c(ex, st, s1, l1, s2, l2, settings, metric, ndim=0):
+    a1, o1 = series_parts(ex, st, s1)
+    a2, o2 = series_parts(ex, st, s2)
+    f = st.heap[settings.oid].fields
+    r, c = zint(l1), zint(l2)
+    m = zint(metric)
+    wnd = zint(f['window'])
+    w = z3.If(wnd == 0, z3.If(r > c, r, c), wnd)
+    p = vlit(f['penalty'])
+    pen = adj(m, p)
+    ms = vlit(f['max_step'])
+    mstep = z3.If(ms == vzero, vinf, adj(m, ms))
+    raw = (a1, o1, r, a2, o2, c, w, pen, mstep, zint(f['psi_1b']), zint(f['psi_2b']), m, zint(ndim))
+    names = ['a1', 'o1', 'r', 'a2', 'o2', 'c', 'w', 'pen', 'mstep', 'p1b', 'p2b', 'metric', 'nd']
+    out, defs = [], []
+    for n, t in zip(names, raw):
+        if z3.is_const(t) or z3.is_int_value(t):
+            out.append(t)
+        else:
+            k = z3.Const('ctx_' + n, t.sort())
+            defs.append(k == t)
+            out.append(k)
+    v = CtxValue(('dtwctx',) + tuple(out))
+    v.defs = defs
+    return v
+
+
+spec('DTWctxC', z3=_ctx_c, doc='specification context of one DTW problem built from the C settings struct')
+
+
+def float_zero_axioms():
+    """IEEE: 0*0 == 0 and x + 0 == x for the non-NaN doubles in play (used for penalty == 0)."""
+    x = z3.Const('fz_x', Val)
+    return [vmul(vzero, vzero) == vzero, z3.ForAll([x], vadd(x, vzero) == x, patterns=[vadd(x, vzero)])]
+
+
+THEORIES['floatzero'] = float_zero_axioms
+
+
+# C's end-of-row scan: `if (cell < acc) acc = cell` from an initial accumulator.
+def cmin(acc, cell):
+    return z3.If(vlt(cell, acc), cell, acc)
+
+
+def _foldmin_body(rec, *args):
+    ctx, acc, row, lo, hi = args[:NCTX], args[NCTX], args[NCTX + 1], args[NCTX + 2], args[NCTX + 3]
+    return z3.If(hi <= lo, acc, cmin(rec(*ctx, acc, row, lo, hi - 1), Wf(*ctx, row, hi - 1)))
+
+
+FoldMinf, foldmin_axioms = fuel_function('FoldMin', CTX_SORTS + [Val, IntS, IntS, IntS], Val, _foldmin_body, fuel=1)
+THEORIES['dtw'] = lambda: w_axioms() + psicol_axioms() + wrowmin_axioms() + winmin_axioms() + foldmin_axioms()
+spec('FoldMin', z3=lambda ex, st, acc, row, lo, hi: FoldMinf(*cur_ctx(ex), vlit(acc), zint(row), zint(lo), zint(hi)))
+
+_acc = z3.Const('bf_acc', Val)
+induction_lemma(
+    'FoldMinIsMin', _ctxc + [_acc, _row, _lo], _hi, _lo + 1,
+    hyp=lambda k: z3.BoolVal(True),
+    prop=lambda k: FoldMinf(*_ctxc, _acc, _row, _lo, k) == min2(WRowMinf(*_ctxc, _row, _lo, k), _acc),
+    patterns=lambda k: [FoldMinf(*_ctxc, _acc, _row, _lo, k)],
+    doc='scanning a row with `if (cell < acc) acc = cell` yields min(row minimum, initial accumulator)',
+    axioms=foldmin_axioms() + wrowmin_axioms() + order_axioms(), props=('C02',))
